@@ -54,8 +54,37 @@ type rope struct {
 }
 
 type lazyDec struct {
-	fr *frame
-	v  symv
+	fr  *frame
+	v   symv  // machine integer, or
+	big *Term // Int-sorted big integer (when non-nil)
+}
+
+func (l lazyDec) render() []value {
+	if l.big != nil {
+		return strElems(decimalString(l.fr, l.big))
+	}
+	return strElems(decimalBV(l.fr, l.v))
+}
+
+func (l lazyDec) sameShape(o lazyDec) bool {
+	if (l.big != nil) != (o.big != nil) {
+		return false
+	}
+	return l.big != nil || l.v.k == o.v.k
+}
+
+func (l lazyDec) eqTerm(o lazyDec) *Term {
+	if l.big != nil {
+		return mkEq(l.big, o.big)
+	}
+	return mkEq(l.v.t, o.v.t)
+}
+
+func (l lazyDec) sameTerm(o lazyDec) bool {
+	if l.big != nil || o.big != nil {
+		return l.big == o.big
+	}
+	return l.v.t == o.v.t
 }
 
 func (r *rope) force() value {
@@ -65,7 +94,7 @@ func (r *rope) force() value {
 	var out []value
 	for _, p := range r.parts {
 		if l, ok := p.(lazyDec); ok {
-			out = append(out, strElems(decimalBV(l.fr, l.v))...)
+			out = append(out, l.render()...)
 		} else {
 			out = append(out, p)
 		}
@@ -112,7 +141,7 @@ func forceBytes(b []value) []value {
 	var out []value
 	for _, p := range b {
 		if l, ok := p.(lazyDec); ok {
-			out = append(out, strElems(decimalBV(l.fr, l.v))...)
+			out = append(out, l.render()...)
 		} else {
 			out = append(out, p)
 		}
@@ -343,7 +372,7 @@ func elemsEq(a, b []value) value {
 			for i := range a {
 				la, oka := a[i].(lazyDec)
 				lb, okb := b[i].(lazyDec)
-				if oka != okb || (oka && la.v.k != lb.v.k) {
+				if oka != okb || (oka && !la.sameShape(lb)) {
 					same = false
 					break
 				}
@@ -363,7 +392,7 @@ func elemsEq(a, b []value) value {
 		acc := tTrue
 		for i := range a {
 			if la, ok := a[i].(lazyDec); ok {
-				acc = mkAnd(acc, mkEq(la.v.t, b[i].(lazyDec).v.t))
+				acc = mkAnd(acc, la.eqTerm(b[i].(lazyDec)))
 			}
 		}
 		return mkVal(acc, types.Bool)
